@@ -15,6 +15,8 @@ func propC05(r *Report, tier string) {
 	ruleOffsetsAlignment(r, "K14-offsets-alignment", snapshotConstructors(r, in))
 	ruleMergeIntroducerRemap(r, in, "K5dep-merge-remap")
 	rulePersistIntroducerCarry(r, in, "K9b-persist-carry")
+	ruleUnionConsumesAllCollections(r, "K14-union-consumes-all-inputs", "index/scorch.(*OptimizeTFRDisjunctionUnadorned).Finish", "IndexSnapshotTermFieldReader", "iterators")
+	ruleNilActualBitmapIsNotEmpty(r, "K6-nil-actual-bitmap-is-not-empty")
 	r.Floor("K14-merge-input-alignment", 6)
 	r.Floor("K14-offsets-alignment", 6)
 	r.Floor("K5dep-merge-remap", 8)
